@@ -687,6 +687,9 @@ class Daemon(object):
                 raise TypeError("objectId must be a string or None")
         else:
             objectId = "obj_" + uuid.uuid4().hex  # generate a new objectId
+        if self.uriFor(objectId).object != objectId:
+            # (uriFor itself refuses ids with white space in them; an id with an '@' in it gives a uri that means another object)
+            raise errors.DaemonError("invalid object id: no uri can address it")
         if inspect.isclass(obj_or_class):
             if weak: raise TypeError("Classes cannot be registered with weak=True.")
             if not hasattr(obj_or_class, "_pyroInstancing"):
